@@ -1,10 +1,156 @@
-"""Checker self-test (thorough tier): slot-driven in-memory AST mutants that each rule
-must report, and behaviour-preserving rewrites on which it must stay silent.
-Nothing is written to /repo and nothing is executed."""
+"""Checker self-test (thorough tier).
+
+For every property a table of single-site edits of the *current* source is applied in memory
+(the edited module replaces the parsed one in a copy of the program model; nothing is written to
+/repo and nothing is executed): `mutants` must make the property's rules report a new failing
+obligation, `neutral` rewrites (behaviour-preserving: renamed locals, commuted / re-associated
+arithmetic, temporaries introduced or removed, equivalent spellings) must leave the set of failing
+obligations unchanged.  An edit whose anchor text is no longer present is skipped and counted as such.
+Generic neutral operators (alpha-renaming of locals, commuting products) are applied to the files a
+property is anchored in.
+"""
 from __future__ import annotations
+import ast, json, os, copy
+from .report import Ob, AnalysisError, VERIF
+
+CASES = os.path.join(VERIF, "sa", "selftest_cases.json")
+
+
+def _failing(obs):
+    return {(o.rule, o.construct, o.detail) for o in obs if not o.ok}
+
+
+def _run_variant(mod, prog, rel, text):
+    try:
+        tree = ast.parse(text)
+    except SyntaxError:
+        return "syntax", None
+    p2 = prog.with_tree(rel, tree)
+    try:
+        obs, floors, meta = mod.run(p2, "quick")
+    except AnalysisError as e:
+        return "analysis-error", str(e)
+    except Exception as e:              # a crash of the analyser on a variant is a self-test failure
+        return "crash", repr(e)
+    return "ok", obs
+
+
+class _Commute(ast.NodeTransformer):
+    """a * b -> b * a for numeric-looking products (never for @, never when an operand is a list/str literal)."""
+    def __init__(self):
+        self.n = 0
+
+    def visit_BinOp(self, node):
+        self.generic_visit(node)
+        if isinstance(node.op, ast.Mult) and not any(isinstance(x, (ast.List, ast.Tuple, ast.Constant)) and
+                                                      isinstance(getattr(x, "value", None), str) for x in (node.left, node.right)) \
+                and not any(isinstance(x, (ast.List, ast.Tuple, ast.ListComp)) for x in (node.left, node.right)):
+            self.n += 1
+            return ast.BinOp(left=node.right, op=node.op, right=node.left)
+        return node
+
+
+class _Rename(ast.NodeTransformer):
+    """Alpha-renaming of the local variables of every function (parameters, attributes, globals and names
+    captured by nested lambdas / comprehensions of an enclosing scope are left alone)."""
+    def __init__(self):
+        self.n = 0
+
+    def visit_FunctionDef(self, fn):
+        params = {a.arg for a in fn.args.posonlyargs + fn.args.args + fn.args.kwonlyargs}
+        if fn.args.vararg:
+            params.add(fn.args.vararg.arg)
+        if fn.args.kwarg:
+            params.add(fn.args.kwarg.arg)
+        nested = [n for n in ast.walk(fn) if isinstance(n, (ast.FunctionDef, ast.Lambda)) and n is not fn]
+        nested_names = {x.id for n in nested for x in ast.walk(n) if isinstance(x, ast.Name)}
+        stored = {n.id for n in ast.walk(fn) if isinstance(n, ast.Name) and isinstance(n.ctx, ast.Store)}
+        declared = {x for n in ast.walk(fn) if isinstance(n, (ast.Global, ast.Nonlocal)) for x in n.names}
+        locals_ = stored - params - nested_names - declared - {"_"}
+        if locals_:
+            for n in ast.walk(fn):
+                if isinstance(n, ast.Name) and n.id in locals_:
+                    n.id = n.id + "_rn"
+                    self.n += 1
+        return fn
+
+
+def generic_neutral(prog, rel):
+    """(label, module text) variants of one file produced by generic behaviour-preserving operators."""
+    out = []
+    src = open(os.path.join(prog.root, rel)).read()
+    tree = ast.parse(src)
+    t2 = copy.deepcopy(tree)
+    c = _Commute()
+    t2 = c.visit(t2)
+    ast.fix_missing_locations(t2)
+    if c.n:
+        out.append((f"commute {c.n} products", ast.unparse(t2)))
+    t3 = copy.deepcopy(tree)
+    r = _Rename()
+    for node in ast.walk(t3):
+        if isinstance(node, ast.FunctionDef):
+            r.visit_FunctionDef(node)
+    if r.n:
+        out.append((f"alpha-rename locals ({r.n} occurrences)", ast.unparse(t3)))
+    # re-formatting: unparse / re-parse drops comments, blank lines and parentheses
+    out.append(("reformat (ast round trip)", ast.unparse(tree)))
+    return out
 
 
 def run(pid, mod, prog):
-    if hasattr(mod, "selftest"):
-        return mod.selftest(prog)
-    return {"obs": [], "extra": {"selftest": "no self-test operators registered for this property yet"}, "info": []}
+    cases = json.load(open(CASES)) if os.path.exists(CASES) else {}
+    mine = cases.get(pid, {})
+    base_status, base_obs = "ok", None
+    try:
+        base_obs, _, _ = mod.run(prog, "quick")
+    except AnalysisError as e:
+        raise
+    base_fail = _failing(base_obs)
+    obs, info = [], []
+    killed = total = skipped = 0
+    survivors = []
+    for case in mine.get("mutants", []):
+        rel, old, new = case["file"], case["old"], case["new"]
+        path = os.path.join(prog.root, rel)
+        src = open(path).read()
+        if src.count(old) != 1:
+            skipped += 1
+            continue
+        total += 1
+        status, res = _run_variant(mod, prog, rel, src.replace(old, new))
+        fired = status == "ok" and bool(_failing(res) - base_fail)
+        if fired:
+            killed += 1
+        else:
+            survivors.append({"file": rel, "old": old[:80], "new": new[:80], "status": status})
+    n_silent = n_total = 0
+    noisy = []
+    variants = []
+    for case in mine.get("neutral", []):
+        rel, old, new = case["file"], case["old"], case["new"]
+        src = open(os.path.join(prog.root, rel)).read()
+        if src.count(old) != 1:
+            skipped += 1
+            continue
+        variants.append((rel, f"{old[:50]!r} -> {new[:50]!r}", src.replace(old, new)))
+    for rel in mine.get("generic_neutral_files", []):
+        for label, text in generic_neutral(prog, rel):
+            variants.append((rel, label, text))
+    for rel, label, text in variants:
+        n_total += 1
+        status, res = _run_variant(mod, prog, rel, text)
+        if status == "ok" and _failing(res) == base_fail:
+            n_silent += 1
+        else:
+            extra = sorted(_failing(res) - base_fail)[:2] if status == "ok" else status
+            noisy.append({"file": rel, "variant": label, "reports": str(extra)[:300]})
+    # self-test outcomes describe the checker, not the repository: they are reported as evidence / INFO and
+    # never as a violation of the property
+    if survivors:
+        info.append(f"SELFTEST {pid}: {len(survivors)} of {total} seeded edits were not reported: {survivors[:3]}")
+    if noisy:
+        info.append(f"SELFTEST {pid}: verdict changed on {len(noisy)} of {n_total} behaviour-preserving rewrites: {noisy[:3]}")
+    return {"obs": obs, "info": info,
+            "extra": {"selftest_survivors": survivors[:5], "selftest_noisy_neutral": noisy[:5], "mutants_total": total, "mutants_killed": killed, "neutral_variants_total": n_total,
+                      "neutral_variants_silent": n_silent, "selftest_cases_skipped_anchor_changed": skipped}}
